@@ -1,12 +1,539 @@
 package checks
 
 import (
+	"context"
+	"fmt"
+	"sync"
+	"time"
+
+	"github.com/ipld/go-storethehash/store"
+
+	"verif/harness/internal/conc"
 	"verif/harness/internal/core"
+	"verif/harness/internal/gen"
+	"verif/harness/internal/hookrt"
 	"verif/harness/internal/run"
 )
 
-// runGated runs one scripted interleaving scenario (DESIGN appendix C).
+// Gated scenarios (DESIGN appendix C): scripted windows a few instructions wide.
+// A goroutine is parked at a lock-free hook point while the harness itself drives
+// the events that make the window dangerous, then released. Every call is recorded
+// and checked like a stress history. Gate expiry => window not attained (inconclusive).
+
+type gctx struct {
+	c    run.Ctx
+	res  *core.CaseResult
+	env  *core.Env
+	s    *store.Store
+	rt   *hookrt.RT
+	u    gen.Universe
+	pl   conc.Plan
+	mu   sync.Mutex
+	recs []conc.Rec
+	vid  uint64
+	wg   sync.WaitGroup
+	note []string
+}
+
+const gT = 4 * time.Second
+
+func (g *gctx) do(client int, o conc.COp) conc.Rec {
+	pl := conc.Plan{Cfg: g.pl.Cfg, U: g.u, Clients: [][]conc.COp{{o}}}
+	_ = pl
+	r := conc.Exec1(g.s, g.u, client, o)
+	g.mu.Lock()
+	g.recs = append(g.recs, r)
+	g.mu.Unlock()
+	return r
+}
+
+func (g *gctx) async(client int, o conc.COp) chan conc.Rec {
+	ch := make(chan conc.Rec, 1)
+	g.wg.Add(1)
+	go func() {
+		defer g.wg.Done()
+		ch <- g.do(client, o)
+	}()
+	return ch
+}
+
+func (g *gctx) put(k int, vlen int) conc.COp {
+	g.vid++
+	return conc.COp{Kind: "put", K: k, VID: 0x9000000000 | g.vid, VLen: vlen}
+}
+
+func (g *gctx) flush() {
+	if err := g.s.Flush(); err != nil {
+		g.res.Violate("flush-error", "gated-flush-error", 0, nil, "Flush failed: %v", err)
+	}
+}
+
+func (g *gctx) reopen(extra ...store.Option) bool {
+	if err := g.s.Close(); err != nil {
+		g.res.Violate("close-error", "gated-close-error", 0, nil, "Close failed: %v", err)
+		return false
+	}
+	s, err := g.env.Open(extra...)
+	if err != nil {
+		g.res.Violate("open-error", "gated-open-error", 0, nil, "reopen failed: %v", err)
+		return false
+	}
+	g.s = s
+	return true
+}
+
+func (g *gctx) gate(hook string, nth int) *hookrt.Gate {
+	gt := hookrt.NewGate(hook, nth, gT)
+	g.rt.AddGate(gt)
+	return gt
+}
+
+func (g *gctx) notAttained(why string) {
+	if g.res.Verdict == "held" {
+		g.res.Verdict = "inconclusive"
+		g.res.Note = "window not attained: " + why
+	}
+	g.res.Add("gated_windows_not_attained", 1)
+}
+
+func waitRec(ch chan conc.Rec, d time.Duration) bool {
+	select {
+	case r := <-ch:
+		ch <- r
+		return true
+	case <-time.After(d):
+		return false
+	}
+}
+
+// sameBucketKeys returns indices of two keys in one bucket (sharing the leading bytes).
+func sameBucketPair(u gen.Universe, bits uint8) (int, int, bool) {
+	for i := range u.Keys {
+		for j := i + 1; j < len(u.Keys); j++ {
+			if gen.Bucket(u.Keys[i].Digest, bits) == gen.Bucket(u.Keys[j].Digest, bits) {
+				return i, j, true
+			}
+		}
+	}
+	return 0, 0, false
+}
+
+type gscen struct {
+	name string
+	run  func(g *gctx)
+	cfg  func(cfg *gen.Config)
+}
+
+var gatedC05 = []gscen{
+	{"G1-reader-after-unlock-vs-put-flush", func(g *gctx) {
+		k, j, _ := sameBucketPair(g.u, g.pl.Cfg.Bits)
+		g.do(0, g.put(k, 20))
+		g.flush()
+		if !g.reopen() { // empty pools: the reader takes the disk path
+			return
+		}
+		gt := g.gate("index.get.after-unlock", 1)
+		rd := g.async(1, conc.COp{Kind: "get", K: k})
+		if !gt.WaitArrived(gT) {
+			g.notAttained("reader did not park")
+			gt.Open()
+			return
+		}
+		g.do(2, g.put(j, 24))
+		g.flush()
+		g.do(2, g.put(j, 30))
+		g.flush()
+		g.res.Flag("window-attained")
+		gt.Open()
+		waitRec(rd, gT)
+	}, nil},
+	{"G2-reader-holds-location-across-overwrite-and-flushes", func(g *gctx) {
+		k, _, _ := sameBucketPair(g.u, g.pl.Cfg.Bits)
+		g.do(0, g.put(k, 20))
+		g.flush()
+		gt := g.gate("store.get.after-lookup", 1)
+		rd := g.async(1, conc.COp{Kind: "get", K: k})
+		if !gt.WaitArrived(gT) {
+			g.notAttained("reader did not park")
+			gt.Open()
+			return
+		}
+		g.do(0, g.put(k, 33))
+		g.flush()
+		g.do(0, g.put(k, 12))
+		g.flush()
+		g.res.Flag("window-attained")
+		gt.Open()
+		waitRec(rd, gT)
+	}, nil},
+	{"G3-put-parked-after-lookup-vs-remove", func(g *gctx) {
+		k, _, _ := sameBucketPair(g.u, g.pl.Cfg.Bits)
+		g.do(0, g.put(k, 20))
+		if g.c.Index%2 == 0 {
+			g.flush()
+		}
+		gt := g.gate("store.put.after-lookup", 1)
+		pw := g.async(1, g.put(k, 25))
+		if !gt.WaitArrived(gT) {
+			g.notAttained("put did not park")
+			gt.Open()
+			return
+		}
+		rm := g.async(2, conc.COp{Kind: "rm", K: k})
+		// with per-key serialization the Remove waits for the Put; without it, it completes now
+		if waitRec(rm, 30*time.Millisecond) {
+			g.res.Flag("remove-completed-inside-put")
+		}
+		g.res.Flag("window-attained")
+		gt.Open()
+		waitRec(pw, gT)
+		waitRec(rm, gT)
+	}, nil},
+	{"G4-put-parked-remove-then-put-of-key-sharing-prefix", func(g *gctx) {
+		k, j, _ := sameBucketPair(g.u, g.pl.Cfg.Bits)
+		g.do(0, g.put(k, 20))
+		g.flush()
+		gt := g.gate("store.put.after-lookup", 1)
+		pw := g.async(1, g.put(k, 25))
+		if !gt.WaitArrived(gT) {
+			g.notAttained("put did not park")
+			gt.Open()
+			return
+		}
+		rm := g.async(2, conc.COp{Kind: "rm", K: k})
+		waitRec(rm, 20*time.Millisecond)
+		pj := g.async(3, g.put(j, 18))
+		waitRec(pj, 50*time.Millisecond)
+		g.res.Flag("window-attained")
+		gt.Open()
+		waitRec(pw, gT)
+		waitRec(rm, gT)
+		waitRec(pj, gT)
+		g.do(4, conc.COp{Kind: "get", K: j})
+	}, nil},
+	{"G5-two-puts-of-an-absent-key", func(g *gctx) {
+		k, _, _ := sameBucketPair(g.u, g.pl.Cfg.Bits)
+		gt1 := g.gate("store.put.after-primary", 1)
+		gt2 := g.gate("store.put.after-primary", 2)
+		p1 := g.async(1, g.put(k, 20))
+		if !gt1.WaitArrived(gT) {
+			g.notAttained("first put did not park")
+			gt1.Open()
+			gt2.Open()
+			return
+		}
+		p2 := g.async(2, g.put(k, 27))
+		if gt2.WaitArrived(40 * time.Millisecond) {
+			g.res.Flag("both-puts-inside")
+		}
+		g.res.Flag("window-attained")
+		gt1.Open()
+		gt2.Open()
+		waitRec(p1, gT)
+		waitRec(p2, gT)
+		g.do(3, conc.COp{Kind: "get", K: k})
+		g.flush()
+		g.do(3, conc.COp{Kind: "get", K: k})
+	}, nil},
+	{"G6-put-parked-after-primary-across-flush-and-rollover", func(g *gctx) {
+		k, j, _ := sameBucketPair(g.u, g.pl.Cfg.Bits)
+		g.do(0, g.put(j, 30))
+		gt := g.gate("store.put.after-primary", 1)
+		pw := g.async(1, g.put(k, 40))
+		if !gt.WaitArrived(gT) {
+			g.notAttained("put did not park")
+			gt.Open()
+			return
+		}
+		g.flush() // writes the parked put's record at its predicted location, possibly rolling files
+		g.do(2, g.put(j, 35))
+		g.flush()
+		g.res.Flag("window-attained")
+		gt.Open()
+		waitRec(pw, gT)
+		g.do(3, conc.COp{Kind: "get", K: k})
+		g.flush()
+		g.do(3, conc.COp{Kind: "get", K: k})
+		g.do(3, conc.COp{Kind: "size", K: k})
+	}, func(cfg *gen.Config) { cfg.PrimaryFileSize = []uint32{16, 50, 80}[int(cfg.Bits)%3] }},
+}
+
+// lowUseSetup fills a primary file so that key k's record sits in a non-current
+// low-use file and is a relocation candidate.
+func (g *gctx) lowUseSetup(k int) bool {
+	others := []int{}
+	for i := range g.u.Keys {
+		if i != k {
+			others = append(others, i)
+		}
+	}
+	g.do(0, g.put(k, 20))
+	for i := 0; i < 3 && i < len(others); i++ {
+		g.do(0, g.put(others[i], 30))
+	}
+	g.flush()
+	for i := 0; i < 3 && i < len(others); i++ {
+		g.do(0, conc.COp{Kind: "rm", K: others[i]})
+	}
+	// roll on: later files hold the other keys; keep writing until k's file is not current any more
+	for i := 3; i < len(others); i++ {
+		g.do(0, g.put(others[i], 40))
+		g.flush()
+	}
+	mp := core.MH(g.s)
+	last := others[len(others)-1]
+	for i := 0; i < 40 && mp != nil && mp.VerifFileNum() < 2; i++ {
+		g.do(0, g.put(last, 60+i%7))
+		g.flush()
+	}
+	g.flush()
+	return true
+}
+
+var gatedC06 = []gscen{
+	{"G7-reader-after-unlock-vs-index-gc", func(g *gctx) {
+		k, j, _ := sameBucketPair(g.u, g.pl.Cfg.Bits)
+		g.do(0, g.put(k, 20))
+		g.flush()
+		if !g.reopen() {
+			return
+		}
+		gt := g.gate("index.get.after-unlock", 1)
+		rd := g.async(1, conc.COp{Kind: "get", K: k})
+		if !gt.WaitArrived(gT) {
+			g.notAttained("reader did not park")
+			gt.Open()
+			return
+		}
+		// supersede the list the reader located, push it into a non-current index file, reap it
+		for i := 0; i < 4; i++ {
+			g.do(2, g.put(j, 20+i))
+			g.flush()
+		}
+		before := g.rt.Counts()
+		for i := 0; i < 2; i++ {
+			g.s.Index().VerifGC(context.Background(), i == 0)
+		}
+		after := g.rt.Counts()
+		if after["index.gc.reap.before-mark"]+after["index.gc.before-remove"]+after["index.gc.free.before-remove"]+after["index.gc.reap.before-truncate"] > before["index.gc.reap.before-mark"]+before["index.gc.before-remove"]+before["index.gc.free.before-remove"]+before["index.gc.reap.before-truncate"] {
+			g.res.Flag("window-attained")
+		} else {
+			g.notAttained("index GC did not reclaim the superseded list")
+		}
+		gt.Open()
+		waitRec(rd, gT)
+	}, func(cfg *gen.Config) { cfg.IndexFileSize = 40 }},
+	{"G8-reader-holds-location-vs-overwrite-flush-primary-gc", func(g *gctx) {
+		k, _, _ := sameBucketPair(g.u, g.pl.Cfg.Bits)
+		g.do(0, g.put(k, 20))
+		g.flush()
+		kind := []string{"get", "has", "size"}[g.c.Index%3]
+		hook := map[string]string{"get": "store.get.after-lookup", "has": "store.has.after-lookup", "size": "store.getsize.after-lookup"}[kind]
+		gt := g.gate(hook, 1)
+		rd := g.async(1, conc.COp{Kind: kind, K: k})
+		if !gt.WaitArrived(gT) {
+			g.notAttained("reader did not park")
+			gt.Open()
+			return
+		}
+		g.do(0, g.put(k, 33)) // supersedes the location the reader holds
+		g.flush()
+		for i := 0; i < 3; i++ { // make the old file non-current
+			g.do(0, g.put((k+1+i)%len(g.u.Keys), 40))
+			g.flush()
+		}
+		mp := core.MH(g.s)
+		before := g.rt.Count("mh.gc.freelist.before-mark")
+		mp.GC(context.Background(), 50)
+		mp.GC(context.Background(), 50)
+		if g.rt.Count("mh.gc.freelist.before-mark") > before {
+			g.res.Flag("window-attained")
+		} else {
+			g.notAttained("primary GC did not reclaim the superseded record")
+		}
+		gt.Open()
+		waitRec(rd, gT)
+	}, func(cfg *gen.Config) { cfg.PrimaryFileSize = 60 }},
+	{"G9-relocation-parked-vs-overwrite", func(g *gctx) {
+		k := g.c.Index % len(g.u.Keys)
+		g.lowUseSetup(k)
+		gt := g.gate("mh.gc.relocate.read", 1)
+		mp := core.MH(g.s)
+		done := make(chan struct{})
+		go func() { mp.GC(context.Background(), 1); close(done) }()
+		if !gt.WaitArrived(2 * time.Second) {
+			g.notAttained("no relocation happened")
+			gt.Open()
+			<-done
+			return
+		}
+		reloc, _ := g.rt.Events(), 0
+		_ = reloc
+		// overwrite every key that may be the one being relocated
+		for i := range g.u.Keys {
+			g.do(1, g.put(i, 21))
+		}
+		g.res.Flag("window-attained")
+		gt.Open()
+		<-done
+		g.flush()
+		mp.GC(context.Background(), 1)
+		g.flush()
+	}, func(cfg *gen.Config) { cfg.PrimaryFileSize = 200 }},
+	{"G10-relocation-parked-vs-remove-and-put-of-prefix-sharing-key", func(g *gctx) {
+		k := g.c.Index % len(g.u.Keys)
+		g.lowUseSetup(k)
+		gt := g.gate("mh.gc.relocate.read", 1)
+		mp := core.MH(g.s)
+		done := make(chan struct{})
+		go func() { mp.GC(context.Background(), 1); close(done) }()
+		if !gt.WaitArrived(2 * time.Second) {
+			g.notAttained("no relocation happened")
+			gt.Open()
+			<-done
+			return
+		}
+		for i := range g.u.Keys {
+			g.do(1, conc.COp{Kind: "rm", K: i})
+		}
+		for i := range g.u.Keys {
+			if i%2 == 1 {
+				g.do(1, g.put(i, 19))
+			}
+		}
+		g.res.Flag("window-attained")
+		gt.Open()
+		<-done
+		g.flush()
+		mp.GC(context.Background(), 1)
+		g.flush()
+	}, func(cfg *gen.Config) { cfg.PrimaryFileSize = 200 }},
+	{"G11-freelist-handover-parked-vs-removals", func(g *gctx) {
+		for i := range g.u.Keys {
+			g.do(0, g.put(i, 20))
+		}
+		g.flush()
+		g.do(0, conc.COp{Kind: "rm", K: 0})
+		g.flush()
+		gt := g.gate("fl.togc.renamed", 1)
+		mp := core.MH(g.s)
+		done := make(chan struct{})
+		go func() { mp.GC(context.Background(), 50); close(done) }()
+		if !gt.WaitArrived(2 * time.Second) {
+			g.notAttained("hand-over not reached")
+			gt.Open()
+			<-done
+			return
+		}
+		// producers keep freeing while the file is between rename and reopen (no Flush: it needs the lock GC holds)
+		for i := 1; i < len(g.u.Keys); i++ {
+			if i%2 == 0 {
+				g.do(1, conc.COp{Kind: "rm", K: i})
+			} else {
+				g.do(1, g.put(i, 26))
+			}
+		}
+		g.res.Flag("window-attained")
+		gt.Open()
+		<-done
+		g.flush()
+		mp.GC(context.Background(), 50)
+		g.flush()
+	}, func(cfg *gen.Config) { cfg.PrimaryFileSize = 100 }},
+}
+
+// runGated runs one scripted interleaving scenario.
 func runGated(c run.Ctx, res *core.CaseResult, prop string) *core.CaseResult {
-	runConc(c, genConcCase(c, prop, prop == "C06"), res, "c"+prop[1:]+"-", true)
+	scens := gatedC05
+	if prop == "C06" {
+		scens = gatedC06
+	}
+	sc := scens[(c.Index/8)%len(scens)]
+	r := gen.Rng(c.Seed, propStream(prop+"gated"), uint64(c.Index))
+	cfg := gen.Config{Primary: gen.MH, Bits: []uint8{8, 9, 12}[r.IntN(3)], IndexFileSize: []uint32{100, 1024}[r.IntN(2)], PrimaryFileSize: []uint32{300, 4096}[r.IntN(2)], FileCache: []int{0, 2, 512}[r.IntN(3)]}
+	if prop == "C05" && r.IntN(3) == 0 {
+		cfg.Primary = gen.CID
+	}
+	if sc.cfg != nil {
+		sc.cfg(&cfg)
+	}
+	// a universe with at least one bucket-sharing pair
+	var u gen.Universe
+	for {
+		u = gen.MakeUniverse(r, cfg.Primary, 5+r.IntN(4))
+		if _, _, ok := sameBucketPair(u, cfg.Bits); ok {
+			break
+		}
+	}
+	env, err := core.NewEnv(cfg)
+	if err != nil {
+		res.Verdict = "inconclusive"
+		return res
+	}
+	defer env.Cleanup()
+	rt := hookrt.New()
+	rt.LogEvents = true
+	rt.NeedGoid = true
+	rt.Install()
+	defer hookrt.Uninstall()
+	s, err := env.Open()
+	if err != nil {
+		res.Violate("open-error", "gated-open-error", 0, nil, "open: %v", err)
+		return res
+	}
+	g := &gctx{c: c, res: res, env: env, s: s, rt: rt, u: u, pl: conc.Plan{Cfg: cfg, U: u}}
+	p := core.Protect(func() { sc.run(g) })
+	rt.ClearGates()
+	g.wg.Wait()
+	if p != nil {
+		res.Violate("panic", "gated-panic:"+sc.name, 0, nil, "scenario %s panicked: %v", sc.name, p)
+	}
+	sigp := "c" + prop[1:] + "-gated:" + sc.name + ":"
+	var finals []conc.Rec
+	p = core.Protect(func() {
+		g.flush()
+		finals = conc.FinalReads(g.pl, g.s)
+		if err := g.s.Close(); err != nil {
+			res.Violate("close-error", sigp+"close-error", 0, nil, "Close failed: %v", err)
+		}
+		if l, err := env.Fsck(); err == nil {
+			b := l.ReplayBuckets()
+			if l.Snapshot != nil && len(l.Snapshot) == l.NumBuckets() {
+				b = l.Snapshot
+			}
+			ps, _ := l.Check(b)
+			for i, pr := range ps {
+				if i >= 3 {
+					break
+				}
+				res.Violate("fsck", sigp+"fsck-"+pr.Clause, 0, nil, "[after gated scenario %s] %s", sc.name, pr)
+			}
+		}
+	})
+	if p != nil {
+		res.Violate("panic", sigp+"panic-at-quiescence", 0, nil, "panic at quiescence: %v", p)
+	}
+	cs := conc.Check(g.pl, g.recs, finals, res, sigp, nil)
+	res.Add("gated_scenarios_run", 1)
+	res.Add("gated:"+sc.name, 1)
+	if res.HasFlag("window-attained") {
+		res.Add("gated_windows_attained", 1)
+		res.Add("gated_attained:"+sc.name, 1)
+	}
+	res.Add("operations_recorded", int64(len(g.recs)))
+	res.Add("keys_ok", int64(cs.Ok))
+	res.Add("keys_illegal", int64(cs.Illegal))
+	res.Hash = core.HashStrings(sc.name, conc.InterleavingHash(rt.Events(), nil))
+	res.NonTrivial = res.HasFlag("window-attained")
+	if (c.Index/8) < len(scens) || res.Verdict == "violated" {
+		var names []string
+		for i, e := range rt.Events() {
+			if i >= 60 {
+				break
+			}
+			names = append(names, fmt.Sprintf("g%d:%s", e.G, e.Name))
+		}
+		res.Sample = map[string]any{"case": c.ID(), "gated_scenario": sc.name, "config": cfg, "window_attained": res.HasFlag("window-attained"), "flags": res.Flags, "events": names}
+	}
 	return res
 }
